@@ -119,6 +119,7 @@ ScenarioOK(s, maxPlugs, maxReqs) ==
   /\ s.ca \in CallerAuth
   /\ s.kn \in Pats /\ s.hn \in Pats
   /\ s.params \in BOOLEAN /\ s.cookies \in BOOLEAN /\ s.body \in BOOLEAN
+  /\ \A j \in DOMAIN s.sched : s.sched[j].k \in {"start", "resume"} /\ s.sched[j].r \in DOMAIN s.reqs
 
 \* ---------------------------------------------------------------------------------------------
 \* concretisation (the only place where names and values are chosen)
@@ -171,6 +172,14 @@ ReqHeadersOf(sc, i) ==
      [] sc.reqs[i] = "casevar"  -> <<<<"x-tag", "r" \o IdxStr(i) \o "-tag">>>>)
   \o (IF i = 1 THEN CallerAuthPair(sc, "req") ELSE <<>>)
 
+\* the other arguments of the i-th request: every value carries the request number, so that whatever leaves the
+\* transport can be attributed to the request it was given for
+ReqArgsOf(sc, i) ==
+  [params  |-> IF sc.params THEN <<<<"q", IdxStr(i)>>, <<"page", "2">>>> ELSE <<>>,
+   cookies |-> IF sc.cookies THEN <<<<"sid", "c" \o IdxStr(i)>>>> ELSE <<>>,
+   body    |-> IF sc.body THEN "payload-" \o IdxStr(i) ELSE "",
+   path    |-> "/p" \o IdxStr(i)]
+
 Concrete(sc) ==
   [defaults   |-> (IF sc.dflt = "tag" THEN <<<<"X-Tag", "d-tag">>, <<"X-Def", "d-only">>>> ELSE <<>>)
                     \o CallerAuthPair(sc, "def"),
@@ -178,11 +187,13 @@ Concrete(sc) ==
    plugins    |-> [i \in DOMAIN sc.plugs |-> PluginOf(sc.plugs[i], sc)],
    tree       |-> sc.tree,
    bearer     |-> IF sc.short THEN "tok-s" ELSE "",
-   params     |-> IF sc.params THEN <<<<"q", "1">>, <<"page", "2">>>> ELSE <<>>,
-   cookies    |-> IF sc.cookies THEN <<<<"sid", "c1">>>> ELSE <<>>,
-   body       |-> IF sc.body THEN "payload-1" ELSE ""]
+   reqargs    |-> [i \in DOMAIN sc.reqs |-> ReqArgsOf(sc, i)],
+   sched      |-> sc.sched]
 \* empty defaults => default_headers=None ; empty request headers => no `headers=` argument ; likewise params,
-\* cookies ; body "" => no content= argument.  params / cookies / body are passed with every request of the session.
+\* cookies ; body "" => no content= argument.
+\* sched = <<>> : the requests are made one after the other (the refresh callback answers at once) ; otherwise the
+\* requests are IN FLIGHT TOGETHER and sched is the order of [k |-> "start" | "resume", r |-> request] events: the
+\* refresh callback suspends until the harness resumes that request.
 
 \* ---------------------------------------------------------------------------------------------
 \* REFERENCE meaning (independent of how the code is organised)
@@ -203,18 +214,53 @@ RefTok(p, i) == IF i = 0 THEN p.val
                          d    == IF p.rets[i] = "<same>" THEN prev ELSE p.rets[i]
                      IN IF NoToken(d) THEN prev ELSE d
 
-\* the configuration as request i must see it: the CONFIGURED defaults, ITS per-request headers, the plug-ins with the
-\* reference token before (.val) and after (.newval) this request's refresh
-ViewPlugin(p, i) == IF IsRefresh(p) THEN [p EXCEPT !.val = RefTok(p, i - 1), !.newval = RefTok(p, i)] ELSE p
+HasRefresh(cfg)    == SelectSeq(cfg.plugins, IsRefresh) # <<>>
+RefreshPlugin(cfg) == SelectSeq(cfg.plugins, IsRefresh)[1]
+
+\* Token plan: for every request the number of ITS callback call and the reference token before / after it.
+\* Requests made one after the other: call i, RefTok(i-1), RefTok(i).  Requests in flight together: the callback is
+\* called (and shown the token in force) when the request starts, and its answer is taken when the request resumes.
+RECURSIVE SchedPlan(_, _, _, _, _)
+SchedPlan(p, ev, tok, ncall, plan) ==
+  IF ev = <<>> THEN plan
+  ELSE LET e == Head(ev) IN
+       IF e.k = "start"
+         THEN SchedPlan(p, Tail(ev), tok, ncall + 1,
+                        [plan EXCEPT ![e.r] = [call |-> ncall + 1, before |-> tok, after |-> tok]])
+         ELSE LET c == plan[e.r].call
+                  d == IF p.rets[c] = "<same>" THEN plan[e.r].before ELSE p.rets[c]
+                  t == IF NoToken(d) THEN tok ELSE d
+              IN SchedPlan(p, Tail(ev), t, ncall, [plan EXCEPT ![e.r].after = t])
+TokPlan(cfg) ==
+  IF ~HasRefresh(cfg) THEN [i \in DOMAIN cfg.requests |-> [call |-> i, before |-> "", after |-> ""]]
+  ELSE LET p == RefreshPlugin(cfg) IN
+       IF cfg.sched = <<>>
+         THEN [i \in DOMAIN cfg.requests |-> [call |-> i, before |-> RefTok(p, i - 1), after |-> RefTok(p, i)]]
+         ELSE SchedPlan(p, cfg.sched, p.val, 0, [i \in DOMAIN cfg.requests |-> [call |-> 0, before |-> "", after |-> ""]])
+
+\* the configuration as request i must see it: the CONFIGURED defaults, ITS per-request headers and arguments, the
+\* plug-ins with the reference token before (.val) and after (.newval) this request's refresh - NOTHING of any other
+\* request of the session, whatever the schedule
+ViewPlugin(p, pl) == IF IsRefresh(p) THEN [p EXCEPT !.val = pl.before, !.newval = pl.after] ELSE p
 LowerNames(d) == {Lower(d[i][1]) : i \in DOMAIN d}
+PairsOf(d) == {d[i] : i \in DOMAIN d}
 View(cfg, i) ==
+  LET pl == TokPlan(cfg)[i]
+      others == DOMAIN cfg.requests \ {i} IN
   [defaults   |-> cfg.defaults,
    reqHeaders |-> cfg.requests[i],
-   plugins    |-> [j \in DOMAIN cfg.plugins |-> ViewPlugin(cfg.plugins[j], i)],
-   bearer     |-> cfg.bearer, params |-> cfg.params, cookies |-> cfg.cookies, body |-> cfg.body,
-   \* header names the other requests of the session use, and the values earlier requests passed
+   plugins    |-> [j \in DOMAIN cfg.plugins |-> ViewPlugin(cfg.plugins[j], pl)],
+   bearer     |-> cfg.bearer,
+   params     |-> cfg.reqargs[i].params, cookies |-> cfg.reqargs[i].cookies, body |-> cfg.reqargs[i].body,
+   path       |-> cfg.reqargs[i].path,
+   \* header names the other requests of the session use; what the OTHER requests passed (values of their per-request
+   \* headers, their params / cookies, bodies, paths)
    others     |-> UNION {LowerNames(cfg.requests[j]) : j \in DOMAIN cfg.requests},
-   earlier    |-> UNION {{cfg.requests[j][m][2] : m \in DOMAIN cfg.requests[j]} : j \in 1..(i - 1)}]
+   foreign    |-> UNION {{cfg.requests[j][m][2] : m \in DOMAIN cfg.requests[j]} : j \in others},
+   foreignArgs |-> (UNION {PairsOf(cfg.reqargs[j].params) \cup PairsOf(cfg.reqargs[j].cookies) : j \in others})
+                   \ (PairsOf(cfg.reqargs[i].params) \cup PairsOf(cfg.reqargs[i].cookies)),
+   foreignBodies |-> {cfg.reqargs[j].body : j \in others} \ {cfg.reqargs[i].body, ""},
+   foreignPaths  |-> {cfg.reqargs[j].path : j \in others}]
 
 HeaderWrites(p) ==
   CASE p.kind = "bearer"  -> <<<<"Authorization", "Bearer " \o p.val>>>>
@@ -264,7 +310,7 @@ DefaultsAfter(variant, tdefaults, prepared) ==
 \* 3. temp_request_args_for_auth = {"headers": prepared_headers.copy(), "params": dict(kwargs.get("params") or {}),
 \*    "cookies": dict(kwargs.get("cookies") or {})}  - since /repo a4b4b62 the plug-ins see (copies of) the request's query
 \*    parameters and cookies; before, the scratch dict carried the headers only and query / cookie API keys were lost
-ScratchOf(variant, cfg, prepared) == [headers |-> prepared, params |-> cfg.params, cookies |-> cfg.cookies]
+ScratchOf(variant, ra, prepared) == [headers |-> prepared, params |-> ra.params, cookies |-> ra.cookies]
 \* OAuth2Auth: new = await refresh_callback(self.access_token); if new and new != access_token: access_token = new
 \* (stored = self.access_token, i = number of this call)
 RefreshStep(p, i, stored) ==
@@ -286,11 +332,12 @@ StepShortcut(variant, cfg, prepared) == HPut(variant, prepared, "Authorization",
 \* request_args = kwargs without headers ; request_args["headers"] = prepared ; client.request(**request_args):
 \* httpx sends every dict entry (case variants are separate entries).
 \* `defaults` = the transport's default-headers dict after the request.
-WireOf(variant, cfg, headers, args, calls, tdefaults) ==
+WireOf(variant, ra, headers, args, calls, tdefaults) ==
   [headers  |-> [i \in DOMAIN headers |-> <<headers[i][1], Lower(headers[i][1]), headers[i][2]>>],
-   query    |-> IF args.params # <<>> THEN args.params ELSE cfg.params,
-   cookies  |-> IF args.cookies # <<>> THEN args.cookies ELSE cfg.cookies,
-   body     |-> cfg.body,
+   query    |-> IF args.params # <<>> THEN args.params ELSE ra.params,
+   cookies  |-> IF args.cookies # <<>> THEN args.cookies ELSE ra.cookies,
+   body     |-> ra.body,
+   path     |-> ra.path,
    refresh  |-> calls,
    defaults |-> tdefaults,
    err      |-> "none"]
@@ -304,38 +351,79 @@ RunPlugins(variant, ps, i, args, stored, calls) ==    \* -> <<args, stored, call
               RunPlugins(variant, Tail(ps), i, ApplyPlugin(variant, p, tok, args), tok, Append(calls, stored))
          ELSE RunPlugins(variant, Tail(ps), i, ApplyPlugin(variant, p, p.val, args), stored, calls)
 
-\* the modelled code path of the i-th request in one expression; st = [tdefaults, stored] is what the transport and
-\* the OAuth2 plug-in remember between requests
-OneRequest(variant, cfg, i, st) ==    \* -> [wire, st]
-  LET prepared == StepPerRequest(variant, cfg.requests[i], StepDefaults(variant, st.tdefaults))
+\* the modelled code path of the i-th request (whose callback call is number ci) in one expression; st = [tdefaults,
+\* stored] is what the transport and the OAuth2 plug-in remember between requests
+OneRequestC(variant, cfg, i, ci, st) ==    \* -> [wire, st]
+  LET ra       == cfg.reqargs[i]
+      prepared == StepPerRequest(variant, cfg.requests[i], StepDefaults(variant, st.tdefaults))
       td       == DefaultsAfter(variant, st.tdefaults, prepared)
-      scratch  == ScratchOf(variant, cfg, prepared) IN
+      scratch  == ScratchOf(variant, ra, prepared) IN
   IF cfg.tree # <<>> THEN
-       LET r == RunPlugins(variant, cfg.plugins, i, scratch, st.stored, <<>>) IN
-       [wire |-> WireOf(variant, cfg, r[1].headers, r[1], r[3], td), st |-> [tdefaults |-> td, stored |-> r[2]]]
+       LET r == RunPlugins(variant, cfg.plugins, ci, scratch, st.stored, <<>>) IN
+       [wire |-> WireOf(variant, ra, r[1].headers, r[1], r[3], td), st |-> [tdefaults |-> td, stored |-> r[2]]]
   ELSE IF cfg.bearer # "" THEN
        \* the shortcut writes into prepared itself (which, aliased, is the defaults dict)
        LET h == StepShortcut(variant, cfg, prepared)
            t == DefaultsAfter(variant, st.tdefaults, h) IN
-       [wire |-> WireOf(variant, cfg, h, scratch, <<>>, t), st |-> [st EXCEPT !.tdefaults = t]]
-  ELSE [wire |-> WireOf(variant, cfg, prepared, scratch, <<>>, td), st |-> [st EXCEPT !.tdefaults = td]]
+       [wire |-> WireOf(variant, ra, h, scratch, <<>>, t), st |-> [st EXCEPT !.tdefaults = t]]
+  ELSE [wire |-> WireOf(variant, ra, prepared, scratch, <<>>, td), st |-> [st EXCEPT !.tdefaults = td]]
+OneRequest(variant, cfg, i, st) == OneRequestC(variant, cfg, i, i, st)
 
-InitialToken(cfg) == LET rs == SelectSeq(cfg.plugins, IsRefresh) IN IF rs = <<>> THEN "" ELSE rs[1].val
+InitialToken(cfg) == IF HasRefresh(cfg) THEN RefreshPlugin(cfg).val ELSE ""
 InitialState(cfg) == [tdefaults |-> cfg.defaults, stored |-> InitialToken(cfg)]
 
 RECURSIVE RunSession(_, _, _, _)
 RunSession(variant, cfg, i, st) ==
   IF i > Len(cfg.requests) THEN <<>>
   ELSE LET r == OneRequest(variant, cfg, i, st) IN <<r.wire>> \o RunSession(variant, cfg, i + 1, r.st)
-\* the whole modelled session (the state machine of Transport.tla is checked against it)
+\* the whole modelled session, requests one after the other (the state machine of Transport.tla is checked against it)
 ModelSession(variant, cfg) == RunSession(variant, cfg, 1, InitialState(cfg))
 
+\* ---- requests in flight together: the modelled code path along a schedule of start / resume events.
+\* A coroutine runs undisturbed until it suspends; with the bundled plug-ins the only suspension point inside
+\* HttpxTransport.request is OAuth2Auth awaiting its refresh callback.  Everything a request has computed so far
+\* (prepared headers, the dict handed to the plug-ins, the remaining plug-ins) is LOCAL to it.
+NoWire == [headers |-> <<>>, query |-> <<>>, cookies |-> <<>>, body |-> "", path |-> "", refresh |-> <<>>,
+           defaults |-> <<>>, err |-> "not-sent"]
+FirstRefresh(ps) == IF \E j \in DOMAIN ps : IsRefresh(ps[j]) THEN Min({j \in DOMAIN ps : IsRefresh(ps[j])}) ELSE Len(ps) + 1
+StartReq(variant, cfg, r, cs) ==
+  LET ra       == cfg.reqargs[r]
+      prepared == StepPerRequest(variant, cfg.requests[r], StepDefaults(variant, cs.tdefaults))
+      td       == DefaultsAfter(variant, cs.tdefaults, prepared)
+      scratch  == ScratchOf(variant, ra, prepared)
+      f        == FirstRefresh(cfg.plugins)
+      pre      == RunPlugins(variant, SubSeq(cfg.plugins, 1, f - 1), 0, scratch, cs.stored, <<>>) IN
+  IF cfg.tree = <<>> \/ f > Len(cfg.plugins)
+    THEN LET o == OneRequestC(variant, cfg, r, 0, [tdefaults |-> cs.tdefaults, stored |-> cs.stored]) IN
+         [cs EXCEPT !.tdefaults = o.st.tdefaults, !.wires[r] = o.wire]
+    ELSE [cs EXCEPT !.tdefaults = td, !.ncall = @ + 1,
+                    !.loc[r] = [args |-> pre[1], rest |-> SubSeq(cfg.plugins, f, Len(cfg.plugins)),
+                                calls |-> <<cs.stored>>, call |-> cs.ncall + 1]]
+ResumeReq(variant, cfg, r, cs) ==
+  LET l   == cs.loc[r]
+      p   == Head(l.rest)
+      tok == RefreshStep(p, l.call, cs.stored)
+      fin == RunPlugins(variant, Tail(l.rest), l.call, ApplyPlugin(variant, p, tok, l.args), tok, l.calls) IN
+  [cs EXCEPT !.stored = fin[2],
+             !.wires[r] = WireOf(variant, cfg.reqargs[r], fin[1].headers, fin[1], fin[3], cs.tdefaults)]
+RECURSIVE RunSched(_, _, _, _)
+RunSched(variant, cfg, ev, cs) ==
+  IF ev = <<>> THEN cs.wires
+  ELSE RunSched(variant, cfg, Tail(ev), IF Head(ev).k = "start" THEN StartReq(variant, cfg, Head(ev).r, cs)
+                                         ELSE ResumeReq(variant, cfg, Head(ev).r, cs))
+ModelSched(variant, cfg) ==
+  RunSched(variant, cfg, cfg.sched,
+           [tdefaults |-> cfg.defaults, stored |-> InitialToken(cfg), ncall |-> 0,
+            loc |-> [r \in DOMAIN cfg.requests |-> [args |-> [headers |-> <<>>, params |-> <<>>, cookies |-> <<>>],
+                                                    rest |-> <<>>, calls |-> <<>>, call |-> 0]],
+            wires |-> [r \in DOMAIN cfg.requests |-> NoWire]])
+ModelOf(variant, cfg) == IF cfg.sched = <<>> THEN ModelSession(variant, cfg) ELSE ModelSched(variant, cfg)
+
 \* RequestIsolation: what request i looks like when NOTHING but the configuration, its own per-request headers and
-\* the token in force reaches it (a transport fresh from its constructor)
+\* arguments and the token in force reaches it (a transport fresh from its constructor, no other request around)
 IsolatedWire(variant, cfg, i) ==
-  LET rs == SelectSeq(cfg.plugins, IsRefresh)
-      st == [tdefaults |-> cfg.defaults, stored |-> IF rs = <<>> THEN "" ELSE RefTok(rs[1], i - 1)]
-  IN OneRequest(variant, cfg, i, st).wire
+  LET pl == TokPlan(cfg)[i]
+  IN OneRequestC(variant, cfg, i, pl.call, [tdefaults |-> cfg.defaults, stored |-> pl.before]).wire
 
 \* ---------------------------------------------------------------------------------------------
 \* the JUDGE : failing clauses of one observed request against the view of its position in the session
@@ -365,7 +453,7 @@ HeaderFailures(v, obs) ==
                           ELSE IF Cardinality(raws) > 1 THEN "casevar"
                           ELSE IF Len(e) > 1 THEN "equal" ELSE "single"
       TailOf(e, x) == IF Len(e) = 0 THEN "none" ELSE IF x # <<>> /\ e[Len(e)] = x[1] THEN "ok" ELSE "wrong"
-      Origin(e, x) == IF \E i \in DOMAIN e : e[i] \in v.earlier /\ <<e[i]>> # x THEN "earlier-request" ELSE ""
+      Origin(e, x) == IF \E i \in DOMAIN e : e[i] \in v.foreign /\ <<e[i]>> # x THEN "other-request" ELSE ""
       Clause(n, e) == LET w == Writers(n) IN
                       IF w = {} THEN "C17.header_precedence"
                       ELSE LET p == plugs[Max(w)] IN
@@ -422,13 +510,18 @@ KeyFailures(v, obs) == UNION {KeyFailuresOf(v, obs, i) : i \in KeyIdx(v)}
 \* CallerArgsUntouched : what is sent besides the API keys is exactly what the caller passed
 KeyVals(v) == {v.plugins[i].val : i \in KeyIdx(v)}
 CallerPart(v, list) == SelectSeq(list, LAMBDA e : e[2] \notin KeyVals(v))
+ArgOrigin(v, list) == IF \E j \in DOMAIN list : list[j] \in v.foreignArgs THEN "other-request" ELSE ""
 CallerFailures(v, obs) ==
   (IF CallerPart(v, obs.query) # v.params
-     THEN {Fail("C17.caller_params_changed", [NoLocus EXCEPT !.arg = "params"])} ELSE {})
+     THEN {Fail("C17.caller_params_changed", [NoLocus EXCEPT !.arg = "params", !.origin = ArgOrigin(v, obs.query)])} ELSE {})
   \cup (IF CallerPart(v, obs.cookies) # v.cookies
-     THEN {Fail("C17.caller_params_changed", [NoLocus EXCEPT !.arg = "cookies"])} ELSE {})
+     THEN {Fail("C17.caller_params_changed", [NoLocus EXCEPT !.arg = "cookies", !.origin = ArgOrigin(v, obs.cookies)])} ELSE {})
+  \cup (IF obs.path # v.path
+     THEN {Fail("C17.caller_params_changed", [NoLocus EXCEPT !.arg = "url",
+                                               !.origin = IF obs.path \in v.foreignPaths THEN "other-request" ELSE ""])} ELSE {})
   \cup (IF obs.body # v.body
-     THEN {Fail("C17.body_changed", [NoLocus EXCEPT !.found = IF obs.body = "" THEN "empty" ELSE "different"])}
+     THEN {Fail("C17.body_changed", [NoLocus EXCEPT !.found = IF obs.body = "" THEN "empty" ELSE "different",
+                                                    !.origin = IF obs.body \in v.foreignBodies THEN "other-request" ELSE ""])}
      ELSE {})
 
 \* TokenFresh : a configured refresh callback is consulted at every request and is shown the token in force (the
@@ -472,16 +565,19 @@ Antecedents(cfg) ==
   [headers |-> Sum([i \in 1..n |-> Cardinality({m \in Universe(V(i)) : WritersOf(V(i), m) = {}})]),
    plugin_headers |-> Sum([i \in 1..n |-> Cardinality({m \in Universe(V(i)) : WritersOf(V(i), m) # {}})]),
    keys |-> n * Cardinality(KeyIdx(V(1))), refresh |-> n * Cardinality(RefreshIdx(V(1))),
-   params |-> n * Len(cfg.params), cookies |-> n * Len(cfg.cookies), body |-> IF cfg.body = "" THEN 0 ELSE n,
+   params |-> n * Len(cfg.reqargs[1].params), cookies |-> n * Len(cfg.reqargs[1].cookies),
+   body |-> IF cfg.reqargs[1].body = "" THEN 0 ELSE n,
    defaults |-> IF cfg.defaults = <<>> THEN 0 ELSE n,
    later |-> n - 1,                                   \* requests that have a predecessor (isolation antecedent)
+   inflight |-> IF cfg.sched = <<>> THEN 0 ELSE n,    \* requests judged that were in flight together with others
    noop_refresh |-> IF RefreshIdx(V(1)) = {} THEN 0   \* callback answers that must leave the token alone
                     ELSE LET p == cfg.plugins[CHOOSE i \in RefreshIdx(V(1)) : TRUE]
                          IN Cardinality({i \in DOMAIN p.rets : NoToken(p.rets[i]) \/ p.rets[i] = "<same>"})]
 
 \* the model and an observation agree on everything the judge looks at (else: DRIFT, never a failure)
 Project(v, obs) == [headers |-> SelectSeq(obs.headers, LAMBDA h : h[2] \in Universe(v)),
-                    query |-> obs.query, cookies |-> obs.cookies, body |-> obs.body, refresh |-> obs.refresh,
+                    query |-> obs.query, cookies |-> obs.cookies, body |-> obs.body, path |-> obs.path,
+                    refresh |-> obs.refresh,
                     defaults |-> obs.defaults, err |-> obs.err]
 ProjectSession(cfg, obsSeq) == [i \in DOMAIN obsSeq |->
                                   IF i \in DOMAIN cfg.requests THEN Project(View(cfg, i), obsSeq[i]) ELSE obsSeq[i]]
